@@ -157,6 +157,12 @@ HeaderClauses(dec, rgs, lfs, cobj) ==
   \cup UNION { LET hdr == dec[rgs[k].from]  d == DefOrigin(dec, rgs, lfs, cobj, lfs[k].lf) IN
                IF Len(hdr.objs) = 1 /\ d # -1 /\ hdr.objs[1].origin # d THEN Flag("C07.OriginChosen", << "FILE-HEADER", hdr.objs[1].origin, d >>) ELSE {}
              : k \in { x \in DOMAIN rgs : x <= Len(lfs) } }
+  \* a header record that also holds the header of another logical file of the history
+  \cup UNION { LET hdr == dec[rgs[k].from] IN
+               IF Len(hdr.objs) > 1 /\ \E n \in DOMAIN hdr.objs, j \in DOMAIN lfs :
+                                         j # k /\ lfs[j].fh_id # lfs[k].fh_id /\ OneStr(AttrOf(hdr, hdr.objs[n], lID)) = LJust(lfs[j].fh_id, 65)
+               THEN {"C18.OwnHeader"} ELSE {}
+             : k \in { x \in DOMAIN rgs : x <= Len(lfs) } }
   \cup UNION { LET hdr == dec[rgs[k].from] IN
                IF Len(hdr.objs) # 1 THEN {}
                ELSE LET o == hdr.objs[1]
